@@ -166,3 +166,19 @@ Proof.
   split; [intro Hx; apply d_pown; assumption|].
   intros y gy. unfold bw_pown, Rdiv. ring.
 Qed.
+
+(* What the hypothesis x <> 0 of d_pown hides.  x^k (k >= 1) is smooth at 0, but the kernel
+   computes k * gy * y / x = 0/0 there (NaN in float32; 0 in Coq's totalised division): for
+   k = 1 the true derivative is 1 and the formula does not yield it.  The implementation is
+   probed at x = 0 by engines/scalar.py (returns NaN for every k). *)
+Theorem pown_bw_at_zero_refuted :
+  exists x k, int32 k /\ is_derive (fun x => fw_pown x k) x 1 /\ bw_pown x (fw_pown x k) 1 k <> 1.
+Proof.
+  exists 0, 1%Z. assert (Hk : int32 1) by (unfold int32; lia).
+  split; [exact Hk|]. split.
+  - apply (is_derive_ext (fun t => t ^ 1)).
+    + intro t. rewrite (fw_pown_spec t 1 Hk). reflexivity.
+    + auto_derive; [exact I | simpl; ring].
+  - rewrite (fw_pown_spec 0 1 Hk). unfold bw_pown. simpl. unfold Rdiv.
+    rewrite !Rmult_0_l, Rmult_0_r, Rmult_0_l. lra.
+Qed.
